@@ -250,8 +250,14 @@ impl DatabaseReader {
             set_pragma("query_only", "1", &conn)?;
 
             let local_receiver = receiver.clone();
+            #[cfg(discret_verif)]
+            let verif_node = crate::verif::node();
             thread::spawn(move || {
+                #[cfg(discret_verif)]
+                let _verif_thread = crate::verif::ThreadGuard::enter(verif_node);
                 while let Ok(q) = local_receiver.recv() {
+                    #[cfg(discret_verif)]
+                    let _verif_inflight = crate::verif::InflightGuard;
                     q(&conn);
                 }
             });
@@ -267,6 +273,8 @@ impl DatabaseReader {
     // }
 
     pub async fn send_async(&self, query: QueryFn) -> Result<()> {
+        #[cfg(discret_verif)]
+        crate::verif::inflight(1);
         self.sender
             .send_async(query)
             .await
@@ -417,6 +425,8 @@ impl BufferedDatabaseWriter {
                             Some(query) => {
                                 query_buffer_length += 1;
                                 query_buffer.push(query);
+                                #[cfg(discret_verif)]
+                                crate::verif::inflight(1);
                             },
                             None => break,
                         }
@@ -429,6 +439,10 @@ impl BufferedDatabaseWriter {
                     }
                 };
 
+                #[cfg(discret_verif)]
+                if crate::verif::hold_batch(query_buffer_length) {
+                    continue;
+                }
                 if query_buffer_length >= buffer_size {
                     //if send_buffer is full, wait for the insertion thread
                     if inflight >= PROCESS_CHANNEL_SIZE {
@@ -454,12 +468,22 @@ impl BufferedDatabaseWriter {
             }
         });
 
+        #[cfg(discret_verif)]
+        let verif_node = crate::verif::node();
         thread::spawn(move || {
+            #[cfg(discret_verif)]
+            let _verif_thread = crate::verif::ThreadGuard::enter(verif_node);
             while let Some(mut buffer) = receive_buffer.blocking_recv() {
+                #[cfg(discret_verif)]
+                let verif_batch_len = buffer.len() as isize;
+                #[cfg(discret_verif)]
+                crate::verif::note_batch(buffer.len());
                 let result = Self::process_batch_write(&mut buffer, &conn);
                 match result {
                     Ok(_) => {
                         for msg in buffer {
+                            #[cfg(discret_verif)]
+                            crate::verif::crash_point("before_ack");
                             match msg {
                                 WriteMessage::Deletion(q, r) => {
                                     let _ = r.send(Ok(q));
@@ -582,6 +606,8 @@ impl BufferedDatabaseWriter {
                         }
                     }
                 }
+                #[cfg(discret_verif)]
+                crate::verif::inflight(-verif_batch_len);
                 let _s = send_ready.blocking_send(true);
             }
         });
@@ -608,6 +634,8 @@ impl BufferedDatabaseWriter {
         let mut optimize = false; //flag to run the optimize task outside a transaction
 
         conn.execute("BEGIN TRANSACTION", [])?;
+        #[cfg(discret_verif)]
+        crate::verif::crash_point("batch_begin");
         for query in buffer {
             match query {
                 WriteMessage::Deletion(query, _) => {
@@ -702,10 +730,16 @@ impl BufferedDatabaseWriter {
                 }
                 WriteMessage::Optimize => optimize = true,
             }
+            #[cfg(discret_verif)]
+            crate::verif::crash_point("after_msg");
         }
         //at the end of the batch, update the daily log with all room dates that needs to be recomputed
         daily_log.write(conn)?;
+        #[cfg(discret_verif)]
+        crate::verif::fault_point("before_commit")?;
         conn.execute("COMMIT", [])?;
+        #[cfg(discret_verif)]
+        crate::verif::crash_point("after_commit");
 
         // run the PRAGMA optimize; outside the transaction
         if optimize {
@@ -1043,5 +1077,15 @@ mod tests {
             .query_async(insert_query, Vec::new(), STRING_MAPPING)
             .await
             .expect_err("attempt to write a readonly database");
+    }
+}
+
+#[cfg(discret_verif)]
+impl BufferedDatabaseWriter {
+    pub fn verif_process_batch_write(
+        buffer: &mut Vec<WriteMessage>,
+        conn: &Connection,
+    ) -> std::result::Result<(), rusqlite::Error> {
+        Self::process_batch_write(buffer, conn)
     }
 }
